@@ -78,8 +78,10 @@ CLAIMS = {
          "(loop invariants over a ghost permutation); on ANY well-formed triplet sequence, repeated tags included, each of the four parsers returns for every tag the value of its LAST occurrence (recursive spec tlast, ghost tag), so the two entry points of each container agree; on arbitrary input they terminate, stay within the allocation budget and return a well-formed map; Options.Len == len(Serialize()); accessors total.",
          "Options.Add on a nil container loses the option (known finding D18: value receiver; carved out exactly, proved for every non-nil container). "),
  "C17": ("Bit-vector proofs over all 2^64 ids: CombineMsgID places each in-range field at the CMPP bit positions, SplitMsgID returns those fields, split-then-combine is the identity, "
-         "every split field is below its decimal print width.",
-         "The decimal string form (MsgID2String / MsgIDString2Uint64) goes through fmt.Sprintf/Sscanf with a seven-field format: its contracts are assumed and a BOUNDED stand-in (TestValidator_MSGID: all {0,1,max} field combinations, single-bit ids, 4*10^4 / 2*10^5 random ids; print == 22-digit form of the fields, parse(print(id)) == id, 0 <-> empty) runs on every check; not proved. "),
+         "every split field is below its decimal print width. The decimal string form is proved against models of fmt.Sprintf / fmt.Sscanf for constant %0Nd formats: MsgID2String(u) is, for u != 0, exactly the 22 digits "
+         "dec2(month) dec2(day) dec2(hour) dec2(minute) dec2(second) dec7(gateway) dec5(sequence) of u's fields (empty for 0); MsgIDString2Uint64(s) is 0 when the scan fails and the recombined scanned fields when it succeeds with in-range fields; "
+         "lemma msgid_string_roundtrip: parse(print(u)) == u for every non-zero 64-bit u.",
+         "The lemma's hypothesis is that Sscanf inverts Sprintf of the same format on in-range fields (assumption A-SCAN; Sprintf's %0Nd = N digits is A-FMT2): not proved, exercised by the BOUNDED stand-in TestValidator_MSGID on every check (all {0,1,max} field combinations, single-bit ids, 4*10^4 / 2*10^5 random ids; print == 22-digit form of the fields, parse(print(id)) == id, 0 <-> empty). "),
  "C18": ("smpp34.findSubValue, smgp30.findSubValue (both key spellings), findSMGPIDValue and both ExtractDeliveryReceipt proved per call against strings.Index's defining property: the value returned for a key is exactly the characters after the first occurrence of `key:` up to the next space or the end "
          "(SMGP: cut to the field width; id: hex of the ten octets after `id:`), empty if the key is absent, never a panic; the CMPP status-report body (SubPduDeliveryContent) is proved like the PDUs of C01/C02. Repaired: D7.",
          "Assumed, not proved (A-TOK): that for receipts built from the eight keys in any order and subset the first occurrence of each key token is its field (a combinatorial fact about the fixed token set under the property's value restrictions). strings.Index is an assumed model. "),
